@@ -22,6 +22,7 @@ LEVEL_ASSUMPTIONS = [
     "ea1p1_revn.rev_if_not_worse / fea1p1_revn.rev_if_h_not_worse that "
     "solve() looks up at call time (zero wrapper calls => inconclusive)"]
 REQUIRED = {"same_name_sibling_histories": 20,
+            "created_points_with_arbitrary_contents": 20,
             "runs_with_entries_above_2^31": 10, "kernel_calls_ea": 5000,
             "kernel_calls_fea": 5000,
             "register_events": 10000, "moves_i0": 200, "moves_j_nm2": 200,
@@ -177,6 +178,16 @@ class Proxy:
             raise Stop
         self._last = want
 
+    def create(self):
+        # moptipy documents the contents of a freshly created point as
+        # UNDEFINED ("may not pass validate"); Permutations happens to return
+        # 0..n-1. Every other run hands out arbitrary contents instead.
+        x = self._p.create()
+        if STATE.get("poison_create"):
+            x[:] = 0 if self._n % 2 else self._n - 1
+            self._ctx.count("created_points_with_arbitrary_contents")
+        return x
+
     def evaluate(self, x):
         f = self._p.evaluate(x)
         self._judge(x, f, "evaluate")
@@ -227,9 +238,11 @@ def make_alg(kind, inst):
 
 
 LAST_BY_NAME: dict = {}
+RUNS = [0]
 
 
-def run_one(ctx, m, name, alg_kind, seed, fes, own_name=None, prev=None):
+def run_one(ctx, m, name, alg_kind, seed, fes, own_name=None, prev=None,
+            poison=None):
     from moptipy.api.algorithm import Algorithm
     from moptipy.api.execution import Execution
     from moptipy.spaces.permutations import Permutations
@@ -257,8 +270,12 @@ def run_one(ctx, m, name, alg_kind, seed, fes, own_name=None, prev=None):
             "name": name, "alg": alg_kind, "seed": seed, "fes": fes,
             "own_name": own_name, "prev_same_name": prev
             if prev is not None and prev != m else None}
+    RUNS[0] += 1
+    case["poison_create"] = bool(RUNS[0] % 2 == 0 if poison is None
+                                 else poison)
     STATE.update(ctx=ctx, m=m, case=case, accepted=0,
-                 ub=int(inst.tour_length_upper_bound))
+                 ub=int(inst.tour_length_upper_bound),
+                 poison_create=case["poison_create"])
 
     class Wrap(Algorithm):
         def solve(self, process):
@@ -394,4 +411,5 @@ def replay(ctx, case):
         run_one(ctx, prev, None, case["alg"], case["seed"], min(
             case["fes"], 50), own_name=case.get("own_name"))
     run_one(ctx, m, case["name"], case["alg"], case["seed"], case["fes"],
-            own_name=case.get("own_name"), prev=prev)
+            own_name=case.get("own_name"), prev=prev,
+            poison=case.get("poison_create"))
